@@ -13,7 +13,7 @@ import traceback
 
 import numpy as np
 
-from common import REPO, VERIF, coq_bool, coq_list, coq_nat, frac, qc, qc_list, qc_mat
+from common import REPO, VERIF, coq_bool, coq_list, coq_nat, frac, qc, qc_list, qc_mat, source_pins
 
 TRUSTED_BASE = [
     "Coq 8.16.1 kernel + coqc (vm_compute only in the non-vacuity Examples and the correspondence shards; no native_compute)",
@@ -48,6 +48,35 @@ PRE = ("From Coq Require Import Arith ZArith QArith Qabs Qcanon List Bool.\nFrom
        "From AV.C08 Require Import Model Corr.\nImport ListNotations.\nLocal Open Scope nat_scope.\n")
 
 H_BOND_X = ["N", "O", "F", "P", "S", "Cl"]
+
+# every function the hand model coq/C08/Model.v (and the structure-mirroring oracles here) was written from
+_I, _D, _B, _C = ("autode/opt/coordinates/internals.py", "autode/opt/coordinates/dic.py", "autode/opt/coordinates/base.py",
+                  "autode/opt/coordinates/cartesian.py")
+PINS = [
+    # A. connect graph (+ the networkx wrappers whose semantics the BFS model mirrors)
+    (_I, "_connect_graph_for_species"), ("autode/mol_graphs.py", "MolecularGraph.is_connected"),
+    ("autode/mol_graphs.py", "MolecularGraph.connected_components"),
+    # B. close_to
+    (_I, "PIC.close_to"),
+    # C. Schmidt
+    (_D, "_schmidt_orthogonalise"), (_D, "DICWithConstraints._calc_U"), ("autode/geom.py", "proj"),
+    # D. Lagrangian layout and g / h assembly
+    (_D, "DICWithConstraints.inactive_indexes"), (_D, "DICWithConstraints.active_indexes"), (_D, "DICWithConstraints.g"),
+    (_D, "DICWithConstraints.h"), (_D, "DICWithConstraints.iadd"), (_D, "DICWithConstraints.from_cartesian"),
+    ("autode/opt/coordinates/primitives.py", "ConstrainedPrimitive.is_satisfied"),
+    ("autode/opt/coordinates/primitives.py", "ConstrainedPrimitive.delta"),
+    # E. clear_tensors machine
+    (_B, "OptCoordinates.__new__"), (_B, "OptCoordinates.__array_finalize__"), (_B, "OptCoordinates.clear_tensors"),
+    (_B, "OptCoordinates.__setitem__"), (_B, "OptCoordinates.__add__"), (_B, "OptCoordinates.__sub__"),
+    (_B, "OptCoordinates.__iadd__"), (_B, "OptCoordinates.__isub__"), (_B, "OptCoordinates.copy"), (_B, "OptCoordinates.e"),
+    (_B, "OptCoordinates.g"), (_B, "OptCoordinates.h"), (_B, "OptCoordinates.h_inv"),
+    (_B, "OptCoordinates.update_g_from_cart_g"), (_B, "OptCoordinates.update_h_from_cart_h"),
+    (_C, "CartesianCoordinates.iadd"), (_C, "CartesianCoordinates._update_g_from_cart_g"),
+    (_C, "CartesianCoordinates._update_h_from_cart_h"),
+    # F. pull-back, and the step / fallback structure mirrored by oracle_step and the OAdd operation of the machine
+    (_D, "DIC._update_g_from_cart_g"), (_D, "DIC._update_h_from_cart_h"), (_D, "DIC.from_cartesian"), (_D, "DIC.iadd"),
+    (_D, "DIC.to"),
+]
 
 
 # =============================================================================================
@@ -1400,7 +1429,7 @@ def impl_oracles(ctx, full):
             record(fs, "impl-linear-orientation", (sname, dname))
             ctx.count("impl-linear-orientation", (sname, dname), sample={"molecule": spec["name"], "n_dic": info.get("n_dic")})
             ctx.hist("impl-linear-orientation", dname)
-            if "n_dic" in info and (full or dname in ("-x", "+y", "-z", "gen1")):
+            if "n_dic" in info and (full or dname in ("-x", "+y", "gen1")):
                 fs2, ok = oracle_step(spec, rs.normal(size=info["n_dic"]).round(4).tolist(), 0.05)
                 record(fs2, "impl-linear-orientation", (sname, dname, "step"))
                 ctx.count("impl-linear-orientation", (sname, dname, "step"))
@@ -1435,6 +1464,8 @@ def impl_oracles(ctx, full):
     # long cumulene chains under every / random numberings of the chain atoms
     import itertools
     perms5 = list(itertools.permutations(range(5)))
+    if not full:   # quick: every second numbering plus a fixed non-monotonic set
+        perms5 = sorted(set(perms5[::2]) | {(0, 1, 2, 4, 3), (0, 1, 3, 2, 4), (1, 0, 2, 3, 4), (0, 2, 1, 3, 4), (4, 3, 2, 0, 1), (3, 4, 0, 1, 2)})
     for lab in perms5:
         record(oracle_numbering(5, lab), "impl-numbering", (5, lab))
         ctx.count("impl-numbering", (5, lab), nontrivial=True, sample={"chain_numbering": list(lab)})
@@ -1510,6 +1541,10 @@ def run(ctx):
     logging.getLogger("autode").setLevel(logging.CRITICAL)
     warnings.filterwarnings("ignore", category=RuntimeWarning)
     full = not ctx.quick
+    pins_changed = source_pins(ctx.pid, PINS)
+    ctx.cov["source_pins"] = {"pinned": len(PINS), "changed": pins_changed}
+    if pins_changed:
+        ctx.log("source pins changed:", ", ".join(pins_changed))
     proofs_ok, info = ctx.proofs(SLICE, "C08/Props.v", "AV.C08.Props", extra_targets=["C08/Corr.vo"])
     ctx.log("proofs:", "ok" if proofs_ok else "BROKEN")
     ctx.cov["print_assumptions"] = info.get("assumptions", {})
@@ -1536,6 +1571,10 @@ def run(ctx):
         # a disagreement IS a concrete input on which the implementation departs from the proved model
         ctx.violation(f"{stream}: implementation and model disagree on {str(d)[:300]}",
                       {"kind": "correspondence", "stream": stream, "case": d, "coq_term": term[:4000]}, found_input=True)
+    if pins_changed and not ctx.violations:
+        # the pinned source changed but no oracle / correspondence stream produced a concrete failing input
+        ctx.violation("hand model no longer pinned to the source: " + ", ".join(pins_changed),
+                      {"kind": "source-pin", "changed": pins_changed}, found_input=False)
 
 
 def replay(ctx, obj):
